@@ -216,6 +216,12 @@ def parse_directive(block):
         if mm:
             d["lift"] = _unq(mm.group(1))
             continue
+        mm = re.match(r"lift_wrap:\s*(.*)$", s)
+        if mm:
+            # the closure body is an expression `Path { fields }` (a struct literal): the lifted function body becomes
+            # `{ <wrap> { fields } }`, where <wrap> is the path that precedes the brace in the source
+            d["lift_wrap"] = mm.group(1).strip()
+            continue
         mm = re.match(r"contract_file:\s*(\S+)$", s)
         if mm:
             d["contract"] = open(os.path.join(VERIF, mm.group(1))).read()
@@ -352,7 +358,12 @@ def build_item(d, canary=False, repo=REPO):
             raise AssembleError("lift anchor in %s must end with the closure's opening brace" % where)
         cb = match_brace(m_, ob)
         log.append({"rule": "N10-lift", "fn": where, "from": anchor, "to": "closure body lifted into a named function; surrounding text dropped"})
-        item_text = "fn lifted__() " + item_text[ob:cb + 1]
+        if d.get("lift_wrap"):
+            if not item_text[:ob].rstrip().endswith(d["lift_wrap"]):
+                raise AssembleError("lift_wrap in %s: %r does not precede the anchor's brace" % (where, d["lift_wrap"]))
+            item_text = "fn lifted__() { " + d["lift_wrap"] + " " + item_text[ob:cb + 1] + " }"
+        else:
+            item_text = "fn lifted__() " + item_text[ob:cb + 1]
     # rules apply to the whole item (signature and body), then the text is split again
     item_text = apply_rewrites(item_text, d, log, where)
     mask = code_mask(item_text)
